@@ -10,6 +10,8 @@ import runner as R
 from props import *
 
 LEAN_MODULES = ['C03lock']
+# harness set-ups (kind=leak) that drive an operator of the table
+LEAK_OPS = {'BufferWithTimeOrCount': ['BufferWithTimeOrCount', 'BufferWithTimeOrCountByCount']}
 GEN = os.path.join(R.LEAN, 'RoGen', 'EmitLocks.lean')
 
 
@@ -43,7 +45,9 @@ def search(ctx, out):
         head = (f'# RoProps/C03lock.emit_table_ok no longer holds: {op} emits while holding a lock that its own teardown / finalizers acquire;\n'
                 '# a downstream that closes the subscription from inside that delivery (Take, First, … or an observer unsubscribing in Next) makes the teardown wait for the emitting goroutine itself\n' + rows_txt + '\n')
         before = len(ctx.violations)
-        rows = R.run_kind(ctx, 'leak', shards=2, extra=['-only', op])
+        rows = []
+        for hop in LEAK_OPS.get(op, [op]):
+            rows += R.run_kind(ctx, 'leak', shards=2, extra=['-only', hop])
         rows = [r for r in rows if 'end=inside' in r[0]]
         if rows:
             R.compare(ctx, rows, lambda d: (flag(d), d.get('leaked'), d.get('released'), d.get('closed')),
